@@ -295,6 +295,93 @@ Definition sp_drain (c : cfg) (st : astate) (nx : N) (v : nat) (sb eb : bound) (
       end
   end.
 
+(** ** drain whose items are also moved into other vectors or forgotten
+
+    A yielded item may be pushed / inserted into ANOTHER vector ([KPush] / [KIns]: the very value moves, nothing is
+    created or destroyed; a refused offer destroys it once and unwinds: the iterator is dropped where it stands) or
+    leaked ([KForget]).  The state of the other vectors therefore changes while the iterator is alive. *)
+Inductive wres :=
+| WDone (rets : list N) (evs : list event) (i j : nat) (st : astate) (lost : list N)
+| WStop (p : panic) (evs : list event) (i j : nat) (st : astate) (lost : list N).
+
+(** one item with value [t]: what the caller sees, the events, the other vectors, the values leaked - or the panic *)
+Definition sp_item (c : cfg) (v : nat) (st : astate) (t : N) (sk : sink)
+  : option ((list N * list event * astate * list N) + (panic * list event)) :=
+  match sk with
+  | KDrop | KSkip => Some (inl ([], drop_ev c t, st, []))
+  | KDown => Some (inl ([t], drop_ev c t, st, []))
+  | KForget => Some (inl ([], [], st, [t]))
+  | KPush dst | KIns dst _ =>
+      if Nat.eqb dst v then None
+      else match get_a dst st with
+           | None => None
+           | Some b =>
+               let di := match sk with KIns _ j => Some j | _ => None end in
+               match put_value c b di t with
+               | inl ys' => Some (inl ([], [], set_a dst (Some (with_xs b ys')) st, []))
+               | inr p => Some (inr (p, drop_ev c t))
+               end
+           end
+  | _ => None
+  end.
+
+Fixpoint sp_walk_mv (c : cfg) (v : nat) (xs : list N) (pat : list (bool * sink)) (i j : nat) (st : astate) : option wres :=
+  match pat with
+  | [] => Some (WDone [] [] i j st [])
+  | (front, sk) :: rest =>
+      if (i =? j)%nat then
+        match sp_walk_mv c v xs rest i j st with
+        | Some (WDone rets evs i' j' st' lost) =>
+            Some (WDone (match sk with KSkip => rets | _ => 0 :: 0 :: N.of_nat (j - i) :: rets end) evs i' j' st' lost)
+        | r => r
+        end
+      else
+        let idx := if front then i else (j - 1)%nat in
+        let i1 := if front then S i else i in
+        let j1 := if front then j else (j - 1)%nat in
+        let t := nth idx xs 0 in
+        match sp_item c v st t sk with
+        | None => None
+        | Some (inr (p, evs0)) => Some (WStop p evs0 i1 j1 st [])
+        | Some (inl (out, evs0, st1, lost0)) =>
+            match sp_walk_mv c v xs rest i1 j1 st1 with
+            | Some (WDone rets evs i' j' st' lost) =>
+                Some (WDone (match sk with KSkip => rets | _ => 1 :: t :: N.of_nat (j1 - i1) :: out ++ rets end)
+                            (evs0 ++ evs) i' j' st' (lost0 ++ lost))
+            | Some (WStop p evs i' j' st' lost) => Some (WStop p (evs0 ++ evs) i' j' st' (lost0 ++ lost))
+            | None => None
+            end
+        end
+  end.
+
+Definition sp_drain_mv (c : cfg) (st : astate) (nx : N) (v : nat) (sb eb : bound) (pat : list (bool * sink)) (f : fin)
+  : option sres :=
+  match get_a v st with
+  | None => None
+  | Some a =>
+      let xs := a_xs a in
+      match range_of_bounds usize_max (N.of_nat (length xs)) (to_sb sb) (to_sb eb) with
+      | None => Some (panic_res (range_panic sb eb) [] st nx)
+      | Some (s, e) =>
+          let s := N.to_nat s in let e := N.to_nat e in
+          (* while the iterator is alive the vector shows the elements in front of the range *)
+          let hidden := set_a v (Some (with_xs a (firstn s xs))) st in
+          let rest_drops i j := if c_dg c then map EDrop (firstn (j - i) (skipn i xs)) else [] in
+          let closed st' := set_a v (Some (with_xs a (VecSpec.sp_drain s e xs))) st' in
+          match sp_walk_mv c v xs pat s e hidden with
+          | None => None
+          | Some (WDone rets evs i j st' _) =>
+              match f with
+              | FinDrop => Some (ok_res (N.of_nat (e - s) :: rets) (evs ++ rest_drops i j) (closed st') nx)
+              | FinForget => Some (ok_res (N.of_nat (e - s) :: rets) evs st' nx)
+              end
+          | Some (WStop p evs i j st' _) =>
+              (* a refused move unwinds through the iterator: it is dropped whatever the caller meant to do with it *)
+              Some (panic_res p (evs ++ rest_drops i j) (closed st') nx)
+          end
+      end
+  end.
+
 (** ** clone / clone_empty / clone_empty_in *)
 
 (** [v.clone()] into slot [dst] (another slot): the i-th element of the result is a clone of the source's
@@ -737,7 +824,11 @@ Definition spec_step (c : cfg) (st : astate) (nx : N) (o : op) : option sres :=
       | None => None
       | Some a => Some (ok_res [] (if c_dg c then map EDrop (a_xs a) else []) (set_a v None st) nx)
       end
-  | ODrain _ v sb eb pat f => sp_drain c st nx v sb eb pat f
+  | ODrain _ v sb eb pat f =>
+      match sp_drain c st nx v sb eb pat f with
+      | Some r => Some r
+      | None => sp_drain_mv c st nx v sb eb pat f
+      end
   | OSplice _ v sb eb pat f (RLazy src) n None claimed => sp_splice_lazy c st nx v sb eb pat f src n claimed
   | OSplice _ v sb eb pat f rk n wrong_at claimed => sp_splice c st nx v sb eb pat f rk n wrong_at claimed
   | OReserve v n => sp_capacity c st nx v (Some n) false
